@@ -860,7 +860,11 @@ impl Director {
         let st = pool.status();
         let mut w = self.world();
         if r.is_err() {
-            w.viol(&["C07", "*"], "resize_panicked", format!("resize({}) panicked", n));
+            if w.closed {
+                w.viol(&["C06", "*"], "resize_after_close", format!("resize({}) on a closed pool panicked", n));
+            } else {
+                w.viol(&["C07", "*"], "resize_panicked", format!("resize({}) panicked", n));
+            }
         }
         if w.closed {
             if st.max_size != 0 || w.live() != live_before {
